@@ -52,6 +52,8 @@ def impl_main():
             dev.fill = lambda cmd: bytes(rng.randint(0, 255) for _ in range(len(cmd.datain)))
         elif c["fill"] == "zeros":
             dev.fill = None
+        elif c["fill"] == "ones":
+            dev.fill = lambda cmd: b"\xff" * len(cmd.datain)
         else:
             dev.fill = lambda cmd, b=bytes(c["fill"]): b
         if c["inject"]:
@@ -152,7 +154,7 @@ def gen_cases(summary, seed, tier):
     cases = []
     for call in method_calls(summary, rng, tier):
         for s in SETS:
-            for fill, inject in (("zeros", False), ("random", False), ("zeros", True)):
+            for fill, inject in (("zeros", False), ("random", False), ("ones", False), ("zeros", True)):
                 c = dict(call)
                 c.update(set=s, fill=fill, inject=inject, fillseed=rng.randint(0, 1 << 30))
                 cases.append(c)
@@ -262,7 +264,7 @@ def run(rep, tier, seed, summary):
     dist = {}
     for r in results:
         dist[r["outcome"]] = dist.get(r["outcome"], 0) + 1
-    rep.suite("facade: 38 methods x 5 command sets x optional-argument subsets x (zero / random fill / device error) vs the regenerated action lists",
+    rep.suite("facade: 38 methods x 5 command sets x optional-argument subsets x (zero / random / all-ones fill / device error) vs the regenerated action lists",
               len(cases), len(bad), samples=[dict(case={k: v for k, v in cases[3].items() if k != "pos"}, impl=results[3])],
               distribution=dict(outcomes=dist, methods=len(summary["facade"]["methods"])))
     return bad, cases, results
